@@ -465,10 +465,15 @@ macro_rules! impl_cache_processor {
                         Ok(())
                     }
                     $item::Delete { key, conflict } => {
-                        self.policy.remove(&key); // deals with metrics updates.
+                        let sitem = self.store.try_remove(&key, conflict)?;
                         #[cfg(transparencies_stretto_verif)]
                         crate::verif::yield_point("del_store");
-                        if let Some(sitem) = self.store.try_remove(&key, conflict)? {
+                        // An entry that is still resident under this index hash belongs to a
+                        // different key (other conflict hash) and keeps its charge.
+                        if sitem.is_some() || self.store.expiration(&key).is_none() {
+                            self.policy.remove(&key); // deals with metrics updates.
+                        }
+                        if let Some(sitem) = sitem {
                             self.callback.on_exit(Some(sitem.value.into_inner()));
                         }
 
